@@ -48,7 +48,8 @@ func parse(b []byte) bool {
 			first = false // the caller itself ("running")
 			continue
 		}
-		if bytes.HasPrefix(state, []byte("running")) || bytes.HasPrefix(state, []byte("runnable")) || bytes.HasPrefix(state, []byte("syscall")) {
+		if bytes.HasPrefix(state, []byte("running")) || bytes.HasPrefix(state, []byte("runnable")) || bytes.HasPrefix(state, []byte("syscall")) ||
+			bytes.HasPrefix(state, []byte("preempted")) || bytes.HasPrefix(state, []byte("copystack")) {
 			return false
 		}
 	}
